@@ -2582,6 +2582,9 @@ func noCallerFunctionUnderTheLock(c *Ctx, r *Report, rule string) {
 					return true
 				}
 				if id, ok := ast.Unparen(call.Fun).(*ast.Ident); ok && funcParams[p.ObjOf(fn, id)] {
+					if !fn.Decl.Name.IsExported() && onlyLiteralsHandedIn(p, fn, p.ObjOf(fn, id)) {
+						return true // a lock wrapper of the package: what it runs is written out at its call sites
+					}
 					r.Violate(rule, r.Key(rule, fn, "caller-function-under-lock", id.Name), call.Pos(),
 						fmt.Sprintf("%s calls %s, a function it was handed, while it holds the log's lock: when that function is a method of another log it takes that log's lock inside this one's — two merges in opposite directions nest the two locks in opposite orders, and with a writer queued on each log both merges and both writers hang", fn.Name, id.Name))
 				}
@@ -2591,4 +2594,45 @@ func noCallerFunctionUnderTheLock(c *Ctx, r *Report, rule string) {
 	}
 	r.Hold(rule, r.Key(rule, nil, "examined", ""), token.NoPos, true, fmt.Sprintf("%d function parameters of %d methods of the root package examined: none is called while the log's lock is held", nParams, nMethods))
 	r.Floor(rule, "methods of the root package that take a function", nMethods, 1)
+}
+
+// onlyLiteralsHandedIn: every call of the unexported function fn in the module hands a function literal in for the
+// parameter par (and there is at least one call).
+func onlyLiteralsHandedIn(p *Prog, fn *Fn, par types.Object) bool {
+	idx := -1
+	sig := fn.Obj.Type().(*types.Signature)
+	for i := 0; i < sig.Params().Len(); i++ {
+		if paramObjAny(fn, i) == par {
+			idx = i
+		}
+	}
+	if idx < 0 {
+		return false
+	}
+	sites, ok := 0, true
+	for _, g := range p.Fns {
+		if g.Body == nil {
+			continue
+		}
+		g := g
+		ast.Inspect(g.Body, func(n ast.Node) bool {
+			call, isCall := n.(*ast.CallExpr)
+			if !isCall {
+				return true
+			}
+			if cf := p.Callee(g, call); cf == nil || cf != fn.Obj {
+				return true
+			}
+			sites++
+			if idx >= len(call.Args) {
+				ok = false
+				return true
+			}
+			if _, lit := ast.Unparen(call.Args[idx]).(*ast.FuncLit); !lit {
+				ok = false
+			}
+			return true
+		})
+	}
+	return ok && sites > 0
 }
